@@ -6,15 +6,15 @@ import (
 	"fmt"
 	"io"
 	"net"
-	"os"
-	"syscall"
-	"time"
 	"net/http"
 	"net/url"
+	"os"
 	"sort"
 	"strconv"
 	"strings"
 	"sync/atomic"
+	"syscall"
+	"time"
 
 	"github.com/gookit/rux"
 )
@@ -106,10 +106,10 @@ type World struct {
 	routes []*routeRec
 	hfn    map[string]rux.HandlerFunc
 
-	cur      [maxTasks]*reqState // request being served by each task
-	solo     *reqState           // request being served outside the scheduler
-	identify *string
-	wrapped  http.Handler // the router behind Router.WrapHTTPHandlers(pass-through pre-handlers), when the scenario asks for it
+	cur      [maxTasks]*reqState   // request being served by each task
+	solo     *reqState             // request being served outside the scheduler
+	identify [maxTasks + 1]*string // per task (index 0: outside the scheduler): a task may be preempted inside Identify
+	wrapped  http.Handler          // the router behind Router.WrapHTTPHandlers(pass-through pre-handlers), when the scenario asks for it
 	mwBase   []rux.HandlerFunc
 	inner    *rux.Router // a second router mounted below the main one ("mount" action)
 
@@ -176,10 +176,10 @@ func (w *World) finishedCopy(self *ReqRec) (*rux.Context, int) {
 func markDone(r *ReqRec) { r.Done = true }
 
 //go:norace
-func (w *World) setIdentify(p *string) { w.identify = p }
+func (w *World) setIdentify(p *string) { w.identify[shCur()+1] = p }
 
 //go:norace
-func (w *World) getIdentify() *string { return w.identify }
+func (w *World) getIdentify() *string { return w.identify[shCur()+1] }
 
 type BuildOpt struct {
 	NoCache bool
@@ -742,6 +742,10 @@ func (w *World) act(rs *reqState, id string, c *rux.Context, a Action) {
 		}
 	case "introspect": // what a route-dump / admin handler does at request time
 		r := c.Router()
+		// The dump functions walk Go maps: with a yield before every statement the order of the
+		// walk would reach the schedule. They only read; no preemption inside them.
+		shQuiet(1)
+		defer shQuiet(-1)
 		n := len(r.String()) * 0
 		n += len(r.Routes()) + len(r.NamedRoutes()) + len(r.Handlers())
 		r.IterateRoutes(func(rt *rux.Route) {
